@@ -527,3 +527,237 @@ def run(repo: Repo, rep: Report) -> None:  # noqa: F811
             rep.ob("C01.j-len-is-computed-from-the-index", mem, cls + ".__len__", r, not counter,
                    "derived from the index at call time" if not counter else
                    "len() returns the counter %s, which add()/remove() adjust with += / -= : adding a triple that is already present counts it again" % norm(v), node=r)
+
+
+# ---------------------------------------------------------------------------------------------------------------------
+# third layer: rules k, l, m (F83, F84, F85)
+
+
+def _self_attr_root(e: ast.AST, defs: dict, seen: frozenset = frozenset()) -> set:
+    """Store attributes of `self` that the value of e may be a LIVE view of (def-use, flow-insensitive): self.X, a subscript
+    of / .keys() .values() .items() .get() .setdefault() on such a value, or a name assigned from one.  A copy (list(), .copy(), a display or
+    comprehension) is not a live view."""
+    a = roles.self_attr(e)
+    if a is not None:
+        return {a}
+    if isinstance(e, ast.Subscript):
+        return _self_attr_root(e.value, defs, seen)
+    if isinstance(e, ast.Call) and isinstance(e.func, ast.Attribute) and e.func.attr in ("keys", "values", "items", "get", "setdefault"):
+        return _self_attr_root(e.func.value, defs, seen)
+    if isinstance(e, ast.Name) and e.id not in seen:
+        out: set = set()
+        for v in defs.get(e.id, ()):
+            out |= _self_attr_root(v, defs, seen | {e.id})
+        return out
+    return set()
+
+
+def _local_defs(fn: ast.AST) -> dict:
+    """name -> expressions it is bound to in fn (assignments; `a = b[k] = {}` binds a to b[k] as well; the target of a loop over
+    X.values() / X.items() is bound to X)"""
+    defs: dict = {}
+    for n in own_nodes(fn):
+        if isinstance(n, ast.Assign):
+            for t in n.targets:
+                if isinstance(t, ast.Name):
+                    defs.setdefault(t.id, []).append(n.value)
+                    for t2 in n.targets:
+                        if isinstance(t2, ast.Subscript):
+                            defs[t.id].append(t2)
+        elif isinstance(n, ast.AnnAssign) and isinstance(n.target, ast.Name) and n.value is not None:
+            defs.setdefault(n.target.id, []).append(n.value)
+        elif isinstance(n, (ast.For, ast.comprehension)):
+            it = _unsnap(n.iter)[0]
+            if isinstance(it, ast.Call) and isinstance(it.func, ast.Attribute) and it.func.attr in ("values", "items"):
+                for t in ast.walk(n.target):
+                    if isinstance(t, ast.Name):
+                        defs.setdefault(t.id, []).append(it.func.value)
+    return defs
+
+
+def _unsnap(it: ast.AST) -> tuple:
+    """(inner expression, True) when `it` is a materialised copy of the inner expression"""
+    if isinstance(it, ast.Call) and isinstance(it.func, ast.Name) and it.func.id in ("list", "tuple", "sorted", "set", "frozenset") and len(it.args) == 1:
+        return _unsnap(it.args[0])[0], True
+    if isinstance(it, ast.Call) and isinstance(it.func, ast.Attribute) and it.func.attr == "copy" and not it.args:
+        return _unsnap(it.func.value)[0], True
+    return it, False
+
+
+_MUTATORS = ("add", "remove", "discard", "pop", "popitem", "clear", "update", "setdefault", "append", "extend", "insert")
+
+
+def _triple_state(mod, cls: str) -> set:
+    """the attributes of self whose contents add() / remove() change, directly or through the self-methods they call"""
+    meths = mod.methods(cls)
+    attrs: set = set()
+    seen: set = set()
+    todo = ["add", "remove"]
+    while todo:
+        m = todo.pop()
+        if m in seen or m not in meths:
+            continue
+        seen.add(m)
+        f = meths[m]
+        defs = _local_defs(f)
+        for n in own_nodes(f):
+            if isinstance(n, (ast.Assign, ast.AugAssign, ast.Delete)):
+                tg = n.targets if isinstance(n, (ast.Assign, ast.Delete)) else [n.target]
+                for t in tg:
+                    if isinstance(t, ast.Subscript):
+                        attrs |= _self_attr_root(t.value, defs)
+            if isinstance(n, ast.Call) and isinstance(n.func, ast.Attribute):
+                if roles.self_attr(n.func) is not None:
+                    todo.append(n.func.attr)
+                elif n.func.attr in _MUTATORS:
+                    attrs |= _self_attr_root(n.func.value, defs)
+    return attrs
+
+
+def _has_yield(stmts) -> bool:
+    for s in stmts:
+        stack = [s]
+        while stack:
+            x = stack.pop()
+            if isinstance(x, (ast.Yield, ast.YieldFrom)):
+                return True
+            if isinstance(x, (ast.FunctionDef, ast.AsyncFunctionDef, ast.ClassDef, ast.Lambda)):
+                continue
+            stack.extend(ast.iter_child_nodes(x))
+    return False
+
+
+_run_base2 = run
+
+
+def run(repo: Repo, rep: Report) -> None:  # noqa: F811
+    _run_base2(repo, rep)
+    gm = repo.mod("rdflib.graph")
+    mem = repo.mod("rdflib.plugins.stores.memory")
+    T = repo.typed
+
+    # ------------------------------------------------------------------ (k)
+    # F83: rule d looked at the default store only.  Every in-memory store hands out generators over its triple state, and Graph.__isub__ /
+    # two graphs over one store mutate that state while such a generator is suspended.
+    rep.rule("C01.k-every-store-iterates-snapshots",
+             "in every in-memory store class (a class of stores/memory.py with add, remove and triples), every lazily consumed loop - a `for` that "
+             "(transitively) yields, or a generator expression that is handed out - whose iterable is a live view of an attribute that add()/remove() "
+             "change (the attribute, a nested level of it, its .keys()/.values()/.items(), through any local alias) iterates a materialised copy "
+             "(list/tuple/sorted/set/frozenset(...) or .copy()). Otherwise g.remove(t) / g.add(t) issued while `for t in g.triples(pattern)` is suspended "
+             "(g -= g on a Graph(store='SimpleMemory'), or a second graph over the same store) raises RuntimeError: dictionary changed size during "
+             "iteration after the first change and leaves the graph half-updated", floor=20)
+    store_classes = [q for q, d in mem.defs.items() if isinstance(d, ast.ClassDef) and "." not in q and {"add", "remove", "triples"} <= set(mem.methods(q))]
+    if len(store_classes) < 2:
+        raise AnalysisError("stores/memory.py: expected the two in-memory store classes, found %s" % store_classes)
+    for cls in store_classes:
+        state = _triple_state(mem, cls)
+        if len(state) < 3:
+            raise AnalysisError("%s: add()/remove() change fewer than three attributes (%s): index state not recognised" % (cls, sorted(state)))
+        rep.info["%s_triple_state" % cls] = sorted(state)
+        for m, f in mem.methods(cls).items():
+            defs = _local_defs(f)
+            sites = []
+            for n in own_nodes(f):
+                if isinstance(n, ast.For) and _has_yield(n.body):
+                    sites.append((n, n.iter, "for %s in %s" % (norm(n.target), norm(n.iter))))
+                elif isinstance(n, ast.GeneratorExp) and not isinstance(mem.parent.get(id(n)), ast.Call):
+                    for g_ in n.generators:
+                        sites.append((n, g_.iter, "(... for %s in %s)" % (norm(g_.target), norm(g_.iter))))
+            for node, it, what in sites:
+                inner, snap = _unsnap(it)
+                live = _self_attr_root(inner, defs) & state
+                if not live:
+                    continue
+                rep.ob("C01.k-every-store-iterates-snapshots", mem, "%s.%s" % (cls, m), what[:120], snap,
+                       "iterates a copy of self.%s state" % "/".join(sorted(live)) if snap else
+                       "yields while iterating the live %s structure that add()/remove() resize: a mutation of the store while this generator is suspended "
+                       "raises `RuntimeError: dictionary changed size during iteration` in the consumer (e.g. g -= g, or remove() from a second graph over the "
+                       "same store inside `for t in g`)" % "/".join("self." + a for a in sorted(live)), node=node)
+        rep.analysed("rdflib/plugins/stores/memory.py:%s.*" % cls)
+
+    # ------------------------------------------------------------------ (l)
+    # F84: between the key snapshot and the yield the triple may have been removed; the filter that decides "is this triple in the requested
+    # context" is evaluated after that window, so it must answer False for a triple that is gone.  The shared default-context dict stands for
+    # "every triple that has no entry of its own" - which includes every triple that is no longer in the store.
+    rep.rule("C01.l-context-filter-does-not-fall-back-to-default",
+             "the self-methods evaluated in a condition that guards a yield of a context-aware store's generator (the per-triple context filter of "
+             "Memory.triples and everything it calls on self) never read the shared default-context attribute: a lookup `map.get(triple, default)` cannot "
+             "tell a triple with the default context info from one that was removed after the iteration snapshotted its keys, so "
+             "`for t in g1.triples((s, None, None)): g2.remove((s, p2, o2))` (g1, g2 over one store, both holding (s,p2,o2)) still yields the removed "
+             "triple from g1's iterator as if it were present", floor=1)
+    init = mem.func("Memory.__init__")
+    dflt = None
+    for n in own_nodes(init):
+        if isinstance(n, (ast.AnnAssign, ast.Assign)):
+            t = n.target if isinstance(n, ast.AnnAssign) else n.targets[0]
+            a = roles.self_attr(t)
+            if a and "default" in a.lower() and "context" in a.lower():
+                dflt = a
+    if dflt is None:
+        raise AnalysisError("Memory.__init__: default-context attribute not found")
+    for cls in store_classes:
+        meths = mem.methods(cls)
+        if not any(roles.self_attr(x) == dflt for f in meths.values() for x in own_nodes(f)):
+            continue  # not a context-aware store: no default-context info
+        filters: dict = {}
+        for m, f in meths.items():
+            if not _has_yield(f.body):
+                continue
+            for n in own_nodes(f):
+                tests = []
+                if isinstance(n, ast.If) and _has_yield(n.body + n.orelse):
+                    tests.append(n.test)
+                elif isinstance(n, ast.While) and _has_yield(n.body):
+                    tests.append(n.test)
+                for t in tests:
+                    for c in ast.walk(t):
+                        if isinstance(c, ast.Call) and roles.self_attr(c.func) is not None and c.func.attr in meths:
+                            filters.setdefault(c.func.attr, m)
+        # close over self-method calls
+        todo = list(filters)
+        while todo:
+            m = todo.pop()
+            for c in own_nodes(meths[m]):
+                if isinstance(c, ast.Call) and roles.self_attr(c.func) is not None and c.func.attr in meths and c.func.attr not in filters:
+                    filters[c.func.attr] = filters[m]
+                    todo.append(c.func.attr)
+        for m, gen in sorted(filters.items()):
+            reads = [x for x in own_nodes(meths[m]) if roles.self_attr(x) == dflt and isinstance(x.ctx, ast.Load)]
+            rep.ob("C01.l-context-filter-does-not-fall-back-to-default", mem, "%s.%s" % (cls, m), "filter of the yields of %s.%s reads self.%s" % (cls, gen, dflt) if reads else
+                   "filter of the yields of %s.%s" % (cls, gen), not reads,
+                   "decides from per-triple / per-context entries only" if not reads else
+                   "the filter falls back to the shared default-context info (%s) for a triple without an entry of its own: a triple removed from the "
+                   "store after %s snapshotted the index keys has no entry either and is reported as a member of the requested graph" % (norm(mem.parent.get(id(reads[0]), reads[0]))[:80], gen),
+                   node=reads[0] if reads else meths[m])
+            rep.analysed("rdflib/plugins/stores/memory.py:%s.%s" % (cls, m))
+
+    # ------------------------------------------------------------------ (m)
+    # F85: RDF terms are value objects (str subclasses with __eq__/__hash__ by value); two graphs over one store, a parsed quad, a graph
+    # fetched with get_context() all carry EQUAL identifiers that are different Python objects.
+    rep.rule("C01.m-terms-compared-by-value",
+             "in rdflib/graph.py, rdflib/store.py and the in-memory stores no two expressions whose static types are RDF terms (subclasses of "
+             "rdflib.term.Identifier) are compared with `is` / `is not`: terms are value objects and equal terms are routinely distinct Python objects, "
+             "so g.addN([(s, p, o, Graph(store=g.store, identifier=URIRef(str(g.identifier))))]) - a quad naming this very graph - is silently dropped "
+             "when the context test is `c.identifier is self.identifier`", floor=8)
+    for mn in ("rdflib.graph", "rdflib.store", "rdflib.plugins.stores.memory"):
+        m_ = repo.mod(mn)
+
+        def is_term(e: ast.AST) -> bool:
+            tf = T.type_of(mn, e)
+            return tf is not None and any("rdflib.term.Identifier" in T.mro(c) for c in tf.items)
+
+        for n in ast.walk(m_.tree):
+            if not isinstance(n, ast.Compare):
+                continue
+            operands = [n.left] + list(n.comparators)
+            for i, op in enumerate(n.ops):
+                if not isinstance(op, (ast.Is, ast.IsNot, ast.Eq, ast.NotEq)):
+                    continue
+                l, r = operands[i], operands[i + 1]
+                if not (is_term(l) and is_term(r)):
+                    continue
+                ident = isinstance(op, (ast.Is, ast.IsNot))
+                rep.ob("C01.m-terms-compared-by-value", m_, m_.qual_of(n) or "<module>", n, not ident,
+                       "compared by value" if not ident else
+                       "two RDF terms (%s / %s) are compared by object identity: an equal term that is another Python object (a second Graph object for the same "
+                       "name, a term that came out of a parser or the store) fails the test" % (T.type_of(mn, l), T.type_of(mn, r)), node=n)
